@@ -73,3 +73,15 @@ Definition spec_enc_sizes : list (string * N * N) :=
 (* RFC 7518 4.7.1.1 / 4.7.1.2: "iv" = base64url of the 96-bit IV; "tag" = base64url of the 128-bit tag *)
 Definition spec_gcmkw_iv_octets : N := 12.
 Definition spec_gcmkw_tag_octets : N := 16.
+
+(* RFC 7516 4.1.3 / RFC 7518 7.3: "zip": "DEF" = "Compression with the DEFLATE [RFC1951] algorithm".
+   A conforming DEFLATE stream is a sequence of blocks the last of which has BFINAL = 1 (RFC 1951 3.2.3):
+   an inflater reaches end-of-stream exactly at the end of the data.  [spec_complete_raw inflate c m] says
+   that for a strict raw inflater (zlib.decompressobj(-15): output, eof flag, unused trailing data). *)
+Definition spec_complete_raw (raw_inflate : bytes -> res (bytes * bool * bytes)) (c m : bytes) : Prop :=
+  raw_inflate c = Ok (m, true, []).
+(* RFC 1950 2.2: zlib format = CMF FLG (2 octets; 0x78 0x9C for deflate, 32K window, default level; FLG varies
+   with the compression level) ++ compressed data (raw DEFLATE) ++ ADLER32 (4 octets) *)
+Definition spec_zlib_header : bytes := [120; 156].
+Definition spec_zlib_format (z hdr raw adler : bytes) : Prop :=
+  z = hdr ++ raw ++ adler /\ length hdr = 2%nat /\ length adler = 4%nat.
